@@ -663,6 +663,7 @@ type entryPlan struct {
 	txn     bool
 	recs    []rec
 	sparse  bool
+	extra   int // attribute bits the library never writes but brokers do: timestamp type, delete horizon, unknown bits
 }
 
 type built struct {
@@ -708,12 +709,12 @@ func build(o *orc.Oracle, r *rand.Rand, base int64, plan []entryPlan) *built {
 					ms = 0
 				}
 				start := len(bt.bytes)
-				bt.bytes = append(bt.bytes, ask(o, fmt.Sprintf("encset m:%d:%d:0:%d:%s:%s", magic, bt.next, ms, wb(x.key), wb(x.value)))...)
+				bt.bytes = append(bt.bytes, ask(o, fmt.Sprintf("encset m:%d:%d:%d:%d:%s:%s", magic, bt.next, int(int8(e.extra)), ms, wb(x.key), wb(x.value)))...)
 				bt.next++
 				bt.ends = append(bt.ends, len(bt.bytes))
 				bt.crcAt = append(bt.crcAt, start+12+r.Intn(4))
 			}
-			bt.desc = append(bt.desc, fmt.Sprintf("%sx%d", e.kind, n))
+			bt.desc = append(bt.desc, fmt.Sprintf("%sx%d%s", e.kind, n, extraTag(e.extra)))
 		case "w1":
 			var parts []string
 			rel := int64(0)
@@ -728,12 +729,12 @@ func build(o *orc.Oracle, r *rand.Rand, base int64, plan []entryPlan) *built {
 			comp := compressWith(e.codec, inner)
 			wrapperOff := bt.next + rel - 1
 			start := len(bt.bytes)
-			bt.bytes = append(bt.bytes, ask(o, fmt.Sprintf("encset m:1:%d:%d:%d:nil:%s", wrapperOff, e.codec, e.recs[n-1].ms, wb(comp)))...)
+			bt.bytes = append(bt.bytes, ask(o, fmt.Sprintf("encset m:1:%d:%d:%d:nil:%s", wrapperOff, int(int8(e.codec|e.extra)), e.recs[n-1].ms, wb(comp)))...)
 			bt.zs = append(bt.zs, fmt.Sprintf("z%d:%d:%s", start+34, len(comp), wb(inner)))
 			bt.next = wrapperOff + 1
 			bt.ends = append(bt.ends, len(bt.bytes))
 			bt.crcAt = append(bt.crcAt, start+12+r.Intn(4))
-			bt.desc = append(bt.desc, fmt.Sprintf("w1c%dx%d%s", e.codec, n, map[bool]string{true: "s", false: ""}[e.sparse]))
+			bt.desc = append(bt.desc, fmt.Sprintf("w1c%dx%d%s%s", e.codec, n, map[bool]string{true: "s", false: ""}[e.sparse], extraTag(e.extra)))
 		case "b2":
 			first, max := e.recs[0].ms, e.recs[0].ms
 			var parts []string
@@ -753,7 +754,7 @@ func build(o *orc.Oracle, r *rand.Rand, base int64, plan []entryPlan) *built {
 				lod += int64(r.Intn(3)) // trailing records compacted away
 			}
 			payload := ask(o, "encrecs "+strings.Join(parts, ";"))
-			attrs := e.codec
+			attrs := int(int16(e.codec | e.extra))
 			if e.txn {
 				attrs |= 16
 			}
@@ -788,10 +789,40 @@ func build(o *orc.Oracle, r *rand.Rand, base int64, plan []entryPlan) *built {
 			if e.sparse {
 				flags += "s"
 			}
-			bt.desc = append(bt.desc, fmt.Sprintf("b2c%dx%d%s", e.codec, n, flags))
+			bt.desc = append(bt.desc, fmt.Sprintf("b2c%dx%d%s%s", e.codec, n, flags, extraTag(e.extra)))
 		}
 	}
 	return bt
+}
+
+func extraTag(x int) string {
+	if x == 0 {
+		return ""
+	}
+	return fmt.Sprintf("a%x", x)
+}
+
+// extraBits: attribute bits set by brokers, never by this library: bit 3 timestamp type (LogAppendTime) for v1 and
+// v2; v2 only: bit 6 delete horizon, unknown bits 7..15; v1: unknown bits 4..7
+func extraBits(r *rand.Rand, kind string) int {
+	if kind == "m0" || r.Intn(2) == 0 {
+		return 0
+	}
+	x := 0
+	if r.Intn(2) == 0 {
+		x |= 8
+	}
+	if kind == "b2" {
+		if r.Intn(4) == 0 {
+			x |= 64
+		}
+		if r.Intn(4) == 0 {
+			x |= 1 << uint(7+r.Intn(9))
+		}
+	} else if r.Intn(4) == 0 {
+		x |= 1 << uint(4+r.Intn(4))
+	}
+	return x
 }
 
 func controlRecs(r *rand.Rand, ms int64) []rec {
@@ -824,7 +855,7 @@ func genPlan(r *rand.Rand, class int, thorough bool) []entryPlan {
 		default:
 			k = "b2"
 		}
-		e := entryPlan{kind: k, recs: rs}
+		e := entryPlan{kind: k, recs: rs, extra: extraBits(r, k)}
 		switch k {
 		case "w1":
 			e.codec = 1 + r.Intn(4)
